@@ -20,35 +20,15 @@
 #include <QTimer>
 
 #include "events.h"
+#include "harness_int.h"
 #include "qtlogger.h"
 
 using namespace QtLogger;
 
 namespace tsim {
 
-namespace {
-
-using Oth = OwnThreadHandler<SimplePipeline>;
-
-struct Ctx
-{
-    const Plan *plan = nullptr;
-    std::string rundir;
-    Logger *logger = nullptr; // set for targets logger / singleton
-    Oth *oth = nullptr; // always set while the handler is alive
-    bool singleton = false;
-    QCoreApplication *app = nullptr;
-    std::map<int, QSharedPointer<SeqNumberAttr>> seqs;
-    sim::Gate gates[4];
-    std::atomic<int> inflight { 0 };
-    std::thread threads[64];
-    bool spawned[64] = { false };
-    int producer_tid[64]; // producer index -> logical thread
-    quintptr qtid[64] = { 0 }; // logical thread -> Qt thread id
-    int cur_main_op = -1;
-    bool is_worker[64] = { false };
-};
 Ctx *C = nullptr;
+
 
 int parse_call_id(const QString &msg)
 {
@@ -485,6 +465,8 @@ void setup_c11(const Plan &P)
                 data += line;
             f.write(data);
             f.close();
+            // written an hour before the run began, by the virtual clock
+            sim::fs_stamp(path.toLocal8Bit().constData(), sim::wall_now() - 3600 * sim::SEC);
         }
     }
     int size = P.cfg["max_size"].toInt();
@@ -506,8 +488,6 @@ void setup_c11(const Plan &P)
     }
 }
 
-} // namespace
-
 void warm_up()
 {
     // Touch the Qt globals that a log call needs so that they are initialised
@@ -523,6 +503,25 @@ void warm_up()
     qRegisterMetaType<QtLogger::LogMessage>("QtLogger::LogMessage");
     (void)QDir::tempPath();
     (void)QThread::currentThread();
+}
+
+sim::SchedConfig sched_config(const Plan &P)
+{
+    sim::SchedConfig sc;
+    sc.seed = P.sched_seed;
+    sc.strategy = P.strategy;
+    sc.pct_depth = P.pct_depth;
+    sc.yield_pct = P.yield_pct;
+    sc.yield_mask_seed = P.sched_seed * 0x9E3779B97F4A7C15ull;
+    sc.spurious_pct = P.spurious_pm;
+    sc.time_adv_pct = P.time_adv_pct;
+    sc.stall_tid = P.stall_tid;
+    sc.stall_from = (uint32_t)P.stall_from;
+    sc.stall_len = (uint32_t)P.stall_len;
+    sc.choices = P.choices;
+    sc.strict_choices = P.strict;
+    sc.sticky_after = P.sticky_after;
+    return sc;
 }
 
 void run_child(const Plan &P, const std::string &rundir)
@@ -581,20 +580,7 @@ void run_child(const Plan &P, const std::string &rundir)
             C->logger->installMessageHandler();
     }
 
-    sim::SchedConfig sc;
-    sc.seed = P.sched_seed;
-    sc.strategy = P.strategy;
-    sc.pct_depth = P.pct_depth;
-    sc.yield_pct = P.yield_pct;
-    sc.yield_mask_seed = P.sched_seed * 0x9E3779B97F4A7C15ull;
-    sc.spurious_pct = P.spurious_pm;
-    sc.time_adv_pct = P.time_adv_pct;
-    sc.stall_tid = P.stall_tid;
-    sc.stall_from = (uint32_t)P.stall_from;
-    sc.stall_len = (uint32_t)P.stall_len;
-    sc.choices = P.choices;
-    sc.strict_choices = P.strict;
-    sc.sticky_after = P.sticky_after;
+    sim::SchedConfig sc = sched_config(P);
     sim::begin(sc);
     C->producer_tid[0] = 0;
     note_thread();
